@@ -349,10 +349,7 @@ def main(tier, replay=None):
             open(path, "w").write(rp["case"] + "\n")
             stream("replay", "file:" + path, 0)
     else:
-        hcorpus = os.path.join(VERIF, "corpus", "C20.hist")
-        if os.path.exists(hcorpus):
-            hist_stream("histcorpus", "histfile:" + hcorpus, 0)
-        hist_stream("hist", "hist", 2000 if tier == "thorough" else 150)
+
         corpus = os.path.join(VERIF, "corpus", "C20.cases")
         if os.path.exists(corpus):
             stream("corpus", "file:" + corpus, 0)
@@ -361,6 +358,11 @@ def main(tier, replay=None):
             stream("deep", "random:4", 80000)
         else:
             stream("random", "random:3", 6000)
+        # incremental stage: the linter's per-unit cache
+        hcorpus = os.path.join(VERIF, "corpus", "C20.hist")
+        if os.path.exists(hcorpus):
+            hist_stream("histcorpus", "histfile:" + hcorpus, 0)
+        hist_stream("hist", "hist", 3000 if tier == "thorough" else 150)
     if st.f20 and f20_entry:
         res.known_finding("%s reproduced on %d generated/corpus processes (e.g. %s): %s" %
                           (f20_entry.get("id", "F20"), st.f20, st.f20_example, f20_entry.get("open", "")))
@@ -385,7 +387,12 @@ def main(tier, replay=None):
         "4% `all`, 4% without list; 10% with constructs outside "
         "the family (signal in a target index, slice bound or assert report), 5% at the boundary of the clock heuristic; "
         "out-mode signal actuals in ~1.5%. non-trivial = a combinational in-family process with >= 1 missing and >= 1 "
-        "superfluous signal expected, or a clocked process; distinct by hash of id+AST")
+        "superfluous signal expected, or a clocked process; distinct by hash of id+AST. Incremental stage (linter cache): "
+        "corpus histories H1-H6 + 150 (thorough 3000) random histories of 2-4 update_source+analyse steps on ONE Project "
+        "(3 libraries, one third party; entities c20_e/c20_f per library; 6 architecture files with 0-2 architectures of "
+        "1-3 generated processes; steps: rename an architecture, empty a file, replace its architectures, new processes, "
+        "drop one architecture, move one to another file); after every step the diagnostics are compared with a fresh "
+        "Project on the same contents and, process by process, with the extracted lint_model")
     res.coverage["trusted_base"] = TRUSTED_BASE_COMMON + [
         "the process AST printed by the harness is the generator's own view of the VHDL text it prints (one emitter produces "
         "text, token table, AST spans and the oracle's read log); name resolution of the generated text is as the generator "
@@ -408,5 +415,9 @@ def main(tier, replay=None):
         "counts as a clock edge; a clock edge in the second of three or more conditions does not) and duplicate list "
         "entries: the oracle is not applied, only the model correspondence",
         "wf_pos and listed_signals are evaluated by the extracted code on every generated process",
+        "C20_cache_history_exact assumes wf_hist (a unit that exists and is not in analyzed_units existed at the previous "
+        "call with the same lint result): a property of DesignRoot::analyze, tied by the incremental stage (fresh vs "
+        "incremental after every step) and by C01; the cache model itself is not extracted (its conclusion is what the "
+        "stage observes)",
     ]
     return res.finish()
